@@ -85,6 +85,8 @@ def response_body(kind, v=4, **kw):
         return wire.OP_RESULT, wire.result_rows(ROWS_COLS, kw.get('rows', [[1]]), v, paging_state=kw.get('paging_state'))
     if kind == 'void':
         return wire.OP_RESULT, wire.result_void()
+    if kind == 'set_keyspace':
+        return wire.OP_RESULT, wire.result_set_keyspace(kw.get('keyspace', 'ks2'))
     if kind == 'read_timeout':
         return wire.OP_ERROR, wire.error(wire.ERR_READ_TIMEOUT, 'rt', cl=kw.get('cl', 1), received=1, blockfor=2, data_present=False)
     if kind == 'write_timeout':
@@ -141,7 +143,8 @@ class Observer(object):
 
 class ReqWorld(object):
     """params: hosts (int), spec (n speculative attempts), spec_delay, timeout, protocol_version,
-    idempotent, order, cluster_kw, keyspace"""
+    idempotent, order, cluster_kw, keyspace, hold_use (True: USE statements, the application's and the ones the
+    driver sends to propagate a keyspace, are held for the explorer like every other application request)"""
 
     def __init__(self, params):
         self.p = p = dict(params)
@@ -168,7 +171,8 @@ class ReqWorld(object):
                     if c.request_ids and 0 in c.request_ids:
                         c.request_ids.rotate(-list(c.request_ids).index(0))
             # from now on the explorer owns every application request and every task
-            self.server.hold = self._hold
+            self.setup_conns = len(self.w.conns)
+            self.server.hold = self._hold_with_use if p.get('hold_use') else self._hold
             self.w.manual = True
             self.handshake_received = len(self.server.received)
             self.futures = []
@@ -188,14 +192,27 @@ class ReqWorld(object):
             return False
         return True
 
+    def _hold_with_use(self, conn, req):
+        # USE on a connection opened later (a replacement selecting the pool's keyspace with a blocking call
+        # inside an executor task) is still answered by the auto server
+        if req['op'] == 'QUERY' and req.get('query', '').strip().upper().startswith('USE ') and conn.vid < self.setup_conns:
+            return True
+        return self._hold(conn, req)
+
     def close(self):
         self.w.__exit__()
 
     # -- client operations
     def execute(self, tag, idempotent=None, timeout='default', **kw):
-        from cassandra.cluster import _NOT_SET
-        stmt = SimpleStatement('SELECT %s' % tag, is_idempotent=self.p.get('idempotent', True) if idempotent is None else idempotent,
-                               **kw.pop('stmt_kw', {}))
+        """kw: stmt_kw (SimpleStatement keywords), query (statement text instead of 'SELECT <tag>'), statement (a ready
+        Statement object, e.g. a BoundStatement), anything else goes to Session.execute_async"""
+        stmt = kw.pop('statement', None)
+        query = kw.pop('query', None)
+        stmt_kw = kw.pop('stmt_kw', {})
+        if stmt is None:
+            stmt = SimpleStatement(query if query is not None else 'SELECT %s' % tag,
+                                   is_idempotent=self.p.get('idempotent', True) if idempotent is None else idempotent,
+                                   **stmt_kw)
         if timeout == 'default':
             f = self.session.execute_async(stmt, **kw)
         else:
